@@ -3,6 +3,8 @@
 package snaps
 
 import (
+	"strings"
+
 	"github.com/gkampitakis/go-snaps/internal/vxrt"
 )
 
@@ -403,6 +405,10 @@ func H_C10_both() {
 	default:
 		content = fb + f10 + fa + fold
 	}
+	if vxrt.Bool("file-has-CRLF-line-endings") {
+		// an autocrlf checkout: entries are found all the same, the rewrite is in the usual layout
+		content = strings.ReplaceAll(content, "\n", "\r\n")
+	}
 	vxWriteFile(path, content)
 	obsolete, err := examineSnaps(reg, []string{path}, "", 1, true, true)
 	vxrt.Assert(err == nil && len(obsolete) == 1, "C10:examine-succeeds")
@@ -410,4 +416,39 @@ func H_C10_both() {
 	stamp := vxrt.FSStamp()
 	_, err = examineSnaps(reg, []string{path}, "", 1, true, true)
 	vxrt.Assert(err == nil && vxrt.FSStamp() == stamp, "C10:second-run-changes-nothing")
+}
+
+// H_C10_ext: a snapshot file with a custom extension (f_test.snap.txt) is a snapshot file for
+// Clean like any other: sorting puts its entries in natural order, clean mode prunes its stale
+// entry, and the survivors replay.
+func H_C10_ext() {
+	vxrt.CI(false)
+	vxrt.EnvFixed("NO_COLOR", "1")
+	prune := vxrt.Bool("clean-mode")
+	if prune {
+		vxrt.EnvFixed("UPDATE_SNAPS", "clean")
+	} else {
+		vxrt.EnvFixed("UPDATE_SNAPS", "")
+	}
+	vxrt.Flag("test.run", "")
+	vxrt.Flag("test.count", "1")
+	dir := vxrt.Dir() + "/__snapshots__"
+	ext := []string{".txt", ".snap.bak", "x"}[vxrt.Choice("ext", 3)]
+	path := dir + "/f_test.snap" + ext
+	vxWriteFile(path, vxFrame("TestB - 1", "b")+vxFrame("TestGone - 1", "stale")+vxFrame("TestA - 1", "a"))
+	vxrt.TestSources(vxrt.Dir()+"/f_test.go", "TestA", "TestB")
+	c := WithConfig(Dir(dir), Filename("f_test"), Ext(ext), Update(false))
+	for _, n := range []string{"TestB", "TestA"} {
+		t := vxNewT(n)
+		c.MatchSnapshot(t, strings.ToLower(n[4:]))
+		t.end()
+	}
+	Clean(nil, CleanOpts{Sort: true})
+	out := vxrt.Stdout()
+	vxrt.Assert(strings.Contains(out, vxBullet+"TestGone - 1\n"), "C09:stale-entry-reported")
+	want := vxFrame("TestA - 1", "a") + vxFrame("TestB - 1", "b")
+	if !prune {
+		want = vxFrame("TestA - 1", "a") + vxFrame("TestB - 1", "b") + vxFrame("TestGone - 1", "stale")
+	}
+	vxrt.Assert(vxReadFile(path) == want, "C10:sorted-in-natural-order")
 }
